@@ -16,7 +16,7 @@ from ..core import rule, AnalysisError
 from ..engine import rx, flow, cfg as cfgmod
 from ..engine import pattern as P
 from ..engine.facts import dotted, const, src, walk_func, str_value, enclosing_stmt, ancestors
-from .common import calls, in_try_handling, contains, stmt_nodes, pn, access_paths, assigned_from, guards_of, arms, branch_paths
+from .common import calls, in_try_handling, contains, stmt_nodes, pn, access_paths, assigned_from, guards_of, arms, branch_paths, return_leaves
 
 
 def _precedence(e):
@@ -227,8 +227,12 @@ def render_encoding(ctx):
     bufv = assigned_from(rn, "$a if %s else $b" % asu)
     ctx.check(bool(cx_) and cx_[0].args and (src(cx_[0].args[0]) in bufv or isinstance(cx_[0].args[0], ast.IfExp)), "buffer-used", db.where(rn), "the Context is not built on the selected buffer", "Context(selected buffer, **data)")
     gv = db.func("util.FastEncodingBuffer.getvalue")
-    gi = [x for x in gv.body if isinstance(x, ast.If)]
-    ok = bool(gi) and src(gi[0].test) == "self.encoding" and ".encode(self.encoding, self.errors)" in src(gi[0].body[0]) and "encode" not in src(ast.Module(body=gi[0].orelse, type_ignores=[]))
+    lv = return_leaves(gv)
+    encd = [(v_, g_) for v_, g_ in lv if any(isinstance(c_, ast.Call) and isinstance(c_.func, ast.Attribute) and c_.func.attr == "encode" for c_ in ast.walk(v_))]
+    plain = [(v_, g_) for v_, g_ in lv if (v_, g_) not in encd]
+    ok = bool(encd) and bool(plain) and all(("self.encoding", True) in g_ and P.matches(v_, "$d.encode(self.encoding, self.errors)") for v_, g_ in encd) and all(("self.encoding", False) in g_ for v_, g_ in plain)
+    # the same text is returned either way
+    ok = ok and len({src(v_.func.value) for v_, g_ in encd} | {src(v_) for v_, g_ in plain}) == 1
     ctx.check(ok, "getvalue", db.where(gv), "getvalue does not encode exactly when an encoding is set", "encode(encoding, errors) iff encoding")
     ru = db.func("template.Template.render_unicode")
     c = calls(ru, "runtime._render")
